@@ -7,6 +7,7 @@ import (
 	"path/filepath"
 	"runtime/pprof"
 	"sort"
+	"strings"
 	"sync"
 	"sync/atomic"
 	"time"
@@ -320,6 +321,9 @@ func (e *engineA) converged() (bool, string) {
 		}
 		info := infos[n.nid]
 		if info.Term != ldrInfo.Term || info.Leader != ldr.nid {
+			if f, ok := ldrInfo.Followers[n.nid]; ok && f.Err == raft.ErrFaultyFollower || strings.Contains(ldrInfo.Followers[n.nid].ErrMessage, "faulty follower") {
+				return false, fmt.Sprintf("faulty follower: leader %d refuses member %d (%s)", ldr.nid, n.nid, ldrInfo.Followers[n.nid].ErrMessage)
+			}
 			return false, fmt.Sprintf("member %d (term %d, leader %d) does not follow leader %d of term %d", n.nid, info.Term, info.Leader, ldr.nid, ldrInfo.Term)
 		}
 	}
